@@ -82,13 +82,15 @@ Proof.
   cbn [erase_dur q_pol q_ordering q_complete q_i q_data q_choices q_perms q_iperm].
   destruct (q_pol q) as [|keep| | |gs].
   - destruct (q_ordering q); reflexivity.
-  - destruct (q_complete q); [reflexivity|]. destruct (zlen (q_ordering q) =? 0); [reflexivity|].
+  - destruct (q_complete q); [reflexivity|].
+    destruct (zlen (q_ordering q) =? 0); [destruct (r_empty_guard R); reflexivity|].
     destruct keep.
     + destruct (znth (q_ordering q) ((q_i q + 1) mod zlen (q_ordering q))); reflexivity.
     + rewrite inter_skip_norm. destruct (inter_skip _ _ _ _) as [[i' k]|]; reflexivity.
   - destruct (q_ordering q); [reflexivity|]. destruct (q_choices q); [reflexivity|].
     destruct (memZ _ _); reflexivity.
   - destruct (q_complete q); [reflexivity|].
+    destruct (r_empty_guard R && (zlen (q_ordering q) =? 0)); [reflexivity|].
     destruct (q_iperm q) as [|x ip].
     + destruct (q_perms q) as [|pp rest]; [reflexivity|].
       destruct (zlen pp =? zlen (q_ordering q)); cbn [negb]; [|reflexivity].
